@@ -408,3 +408,53 @@ int lemma_evplus_mod_kernel(const struct edge_value *av_, node_handle ap, const 
     return exc == 0 && cn == OMEGA_NORMAL && cv.mytype == edge_type__LONG && cv.ev_long == av % bv;
 }
 void h_evplus_mod_kernel(void) { struct edge_value *x, *y; node_handle w_ap = nondet_int(), w_bp = nondet_int(); lemma_evplus_mod_kernel(x, w_ap, y, w_bp); CANARY(); }
+
+int lemma_evplus_div_shortcuts(struct forest *f1, struct forest *f2, const struct edge_value *av_, node_handle ap, const struct edge_value *bv_, node_handle bp)
+{
+    int ok = 0;
+    struct edge_value cv; node_handle cn;
+    { struct edge_value a1 = *av_; node_handle an1 = ap;
+      if (evplus_div__simplifiesToFirstArg(0, f1, &a1, &an1, f2, bv_, bp)) {
+          evplus_div__apply(av_, ap, bv_, bp, &cv, &cn);
+          if (verif_exc == 0 && cn == an1 && (cn == OMEGA_INFINITY || (cv.mytype == edge_type__LONG && cv.ev_long == a1.ev_long))) ok |= 1;
+          verif_exc = 0;
+      } else ok |= 1; }
+    { struct edge_value a1 = *av_; node_handle an1 = ap;
+      if (evplus_div__simplifiesToSecondArg(0, f1, &a1, &an1, f2, bv_, bp)) {
+          evplus_div__apply(av_, ap, bv_, bp, &cv, &cn);
+          if (verif_exc == 0 && cn == bp && (cn == OMEGA_INFINITY || (cv.mytype == edge_type__LONG && cv.ev_long == bv_->ev_long))) ok |= 2;
+          verif_exc = 0;
+      } else ok |= 2; }
+    { if (evplus_div__stopOnEqualArgs()) {
+          evplus_div__apply(av_, ap, av_, ap, &cv, &cn);
+          if (verif_exc == 0 && cn == OMEGA_NORMAL && cv.mytype == edge_type__LONG && cv.ev_long == 1) ok |= 4;
+          verif_exc = 0;
+      } else ok |= 4; }
+    return ok;
+}
+void h_evplus_div_shortcuts(void) { struct forest *f1, *f2; struct edge_value *x, *y; node_handle w_ap = nondet_int(), w_bp = nondet_int(); lemma_evplus_div_shortcuts(f1, f2, x, w_ap, y, w_bp); CANARY(); }
+
+int lemma_evplus_mod_shortcuts(struct forest *f1, struct forest *f2, const struct edge_value *av_, node_handle ap, const struct edge_value *bv_, node_handle bp)
+{
+    int ok = 0;
+    struct edge_value cv; node_handle cn;
+    { struct edge_value a1 = *av_; node_handle an1 = ap;
+      if (evplus_mod__simplifiesToFirstArg(0, f1, &a1, &an1, f2, bv_, bp)) {
+          evplus_mod__apply(av_, ap, bv_, bp, &cv, &cn);
+          if (verif_exc == 0 && cn == an1 && (cn == OMEGA_INFINITY || (cv.mytype == edge_type__LONG && cv.ev_long == a1.ev_long))) ok |= 1;
+          verif_exc = 0;
+      } else ok |= 1; }
+    { struct edge_value a1 = *av_; node_handle an1 = ap;
+      if (evplus_mod__simplifiesToSecondArg(0, f1, &a1, &an1, f2, bv_, bp)) {
+          evplus_mod__apply(av_, ap, bv_, bp, &cv, &cn);
+          if (verif_exc == 0 && cn == bp && (cn == OMEGA_INFINITY || (cv.mytype == edge_type__LONG && cv.ev_long == bv_->ev_long))) ok |= 2;
+          verif_exc = 0;
+      } else ok |= 2; }
+    { if (evplus_mod__stopOnEqualArgs()) {
+          evplus_mod__apply(av_, ap, av_, ap, &cv, &cn);
+          if (verif_exc == 0 && cn == OMEGA_NORMAL && cv.mytype == edge_type__LONG && cv.ev_long == 0) ok |= 4;
+          verif_exc = 0;
+      } else ok |= 4; }
+    return ok;
+}
+void h_evplus_mod_shortcuts(void) { struct forest *f1, *f2; struct edge_value *x, *y; node_handle w_ap = nondet_int(), w_bp = nondet_int(); lemma_evplus_mod_shortcuts(f1, f2, x, w_ap, y, w_bp); CANARY(); }
